@@ -17,7 +17,10 @@ CHECKS = {
   text="Coq theorems, Closed under the global context, for every state whose id allocator satisfies the representation invariant that C20 "
        "proves is maintained: acquire returns the LEAST free id (not in use before, in use after, nothing else touched, no event) and reports "
        "exhaustion only when no id in 1..max is free; register succeeds exactly for a free in-range id; release is total for every id value "
-       "(0, out of range, free, in use) and announces the release exactly when it turns an in-use id free. PARTIAL (C08_partial): the "
+       "(0, out of range, free, in use) and announces the release exactly when it turns an in-use id free. OVER HISTORIES "
+       "(C08_WFpid_invariant, by a walk through every function of the model): every call keeps that representation invariant — every release "
+       "the library performs is guarded by 'is in use' — except the unguarded release of stored packets dropped as oversize on resume, which "
+       "the hypothesis excludes; so the per-call theorems apply in every state of such a history of a fresh object. PARTIAL (C08_partial): the "
        "per-call accounting 'announced releases = ids that turn free' for every other call (sends, acks, refusals, close, resume) and the "
        "no-leak-on-close clause are decided by the monitor (in-use set from the hook, ghost of application-held ids) on the "
        "implementation's traces and by the projection correspondence, not yet by theorems.",
